@@ -42,7 +42,8 @@ Proof. exact StmtProofs2.C14_resolve_first. Qed.
 
 Theorem C14_absolute_bypasses : forall env name, is_abs name = true ->
   resolve_file env name =
-  resolve_file {| e_files := e_files env; e_readers := e_readers env; e_prefixes := [""]; e_modules := e_modules env |} name.
+  resolve_file {| e_files := e_files env; e_readers := e_readers env; e_prefixes := [""]; e_modules := e_modules env;
+                  e_mod_regs := e_mod_regs env |} name.
 Proof. exact StmtProofs2.C14_absolute_bypasses. Qed.
 
 Theorem C14_absolute_full_is_name : forall env name full g, is_abs name = true ->
@@ -155,10 +156,12 @@ Proof. exact StmtProofs3.C14_entry_no_finalize_keeps_lock. Qed.
 
 (* ---- unknown names are errors unless skip_unknown is passed ---- *)
 Theorem C14_unknown_is_error_parse_config : forall env fname g s ts gs pe,
+  pure_imports env ->
   settle (f_tokens g) = POk ts -> parse_groups 60 (f_oracle g) false ts = (gs, pe) -> no_includes gs -> has_unknown s gs ->
   exists e, snd (parse_config env SkFalse fname g s) = SErr e.
 Proof. exact C15_parse_config_unknown_is_error. Qed.
 Theorem C14_unknown_is_error_entry_point : forall env s files b fin ts gs pe,
+  pure_imports env ->
   settle (f_tokens b) = POk ts -> parse_groups 60 (f_oracle b) false ts = (gs, pe) -> no_includes gs -> has_unknown s gs ->
   exists e, snd (run_call2 env s (PFilesBindings files b fin SkFalse)) = serr_out e.
 Proof. exact C15_entry_unknown_binding_is_error. Qed.
